@@ -27,6 +27,12 @@ def bit32(data: bytes, order) -> bytes:
 
 
 SPEC = dict(
+    manifest=dict(
+        category='proof',
+        text="crc.py's integer loops and tables are translated to Lean on every run; Lean proves, for every byte string, that the translated code equals the bit-at-a-time CRC-16/XMODEM and CRC-32C definitions (256-entry table obligations by kernel evaluation, per-byte lemma by xor-linearity, induction over the input).",
+        level_note='Trusted: Lean kernel (propext, Classical.choice, Quot.sound only), the 150-line Python->Lean expression translator, Spec/Crc.lean as the CRC definitions, int.to_bytes modelled by hand. The correspondence (driver vs library vs independent bitwise oracle) additionally ties the compiled model to the library on ~9k (quick) / 220k (thorough) inputs.',
+        technique='Lean 4 proof over a model regenerated from source + differential correspondence',
+    ),
     translators=[('crc.py->Generated/Crc.lean', tr.regenerate)],
     design_ref='DESIGN.md §6 C18',
     rule='inputs: all 256 one-byte strings, all/sampled two-byte strings, seeded random strings of length 0..4096 '
